@@ -46,7 +46,7 @@ NearMissesStay == {5, 6, 10} \subseteq src
 
 \* witnesses (must be violated)
 W_NeverEmptiesAChannel == ~(TLCGet("level") = 2 /\ last.d = 1 /\ src \cap {1, 2, 3, 4} = {} /\ 7 \in src)
-W_NeverPartialWindow   == ~(TLCGet("level") = 2 /\ last.d = 1 /\ last.cmd = "mv" /\ last.X = {9})
+W_NeverPartialWindow   == ~(TLCGet("level") = 2 /\ last.d = 1 /\ last.cmd = "mv" /\ 9 \in last.X /\ 2 \notin last.X /\ 4 \in last.X)
 W_NeverForwardFill     == ~(TLCGet("level") = 2 /\ last.d = 1 /\ last.cmd = "cp" /\ last.o.hs /\ last.o.s = 4 /\ 8 \in last.X)
 First(c) == TLCGet("level") = 2 /\ last.cmd = c /\ last.o = Base /\ last.d = 1 /\ last.X = {1, 2, 3, 4, 7, 8, 9}
 W_NeverLn == ~First("ln")
